@@ -490,18 +490,21 @@ def build_ops(gen_docs=None):
     for name, (factory, ck) in C.OBJS.items():
         needs = C.OBJ_NEEDS.get(name)
         g = group_of(ck)
+        generated = g == "m_gen"
         for w in ("lxml", "native"):
             ops.append(op_ser_xml(name, factory, w, "default", "none", needs, g))
-            ops.append(op_ser_xml(name, factory, w, "indent", "m1", needs, g))
-        ops.append(op_ser_xml(name, factory, "native", "nodecl", "m2", needs, g))
-        ops.append(op_ser_xml(name, factory, "lxml", "skipdef", "none", needs, g))
-        ops.append(op_ser_xml(name, factory, "native", "schemaloc", "none", needs, g))
+            if not generated or w == "native":
+                ops.append(op_ser_xml(name, factory, w, "indent", "m1", needs, g))
+        if not generated:
+            ops.append(op_ser_xml(name, factory, "native", "nodecl", "m2", needs, g))
+            ops.append(op_ser_xml(name, factory, "lxml", "skipdef", "none", needs, g))
+            ops.append(op_ser_xml(name, factory, "native", "schemaloc", "none", needs, g))
+            ops.append(op_ser_json(name, factory, "factory", needs, g))
+            ops.append(op_ser_json(name, factory, "indent", needs, g))
+            ops.append(op_dict_encode(name, factory, "skipdef", "filter_none", needs, g))
         ops.append(op_tree_ser(name, factory, "default", needs, g))
         ops.append(op_ser_json(name, factory, "default", needs, g))
-        ops.append(op_ser_json(name, factory, "factory", needs, g))
-        ops.append(op_ser_json(name, factory, "indent", needs, g))
         ops.append(op_dict_encode(name, factory, "default", "dict", needs, g))
-        ops.append(op_dict_encode(name, factory, "skipdef", "filter_none", needs, g))
         ops.append(op_pycode(name, factory, needs, g))
     # JSON
     for name, (text, ck, needs) in list(C.JSON.items()) + list(C.BAD_JSON.items()) + list(gen_docs["json"].items()):
